@@ -116,6 +116,7 @@ class HistoryGen:
         self.recs = []
         self.full = []
         self.acks = []           # pending device replies
+        self.old_ids = {}        # ids a configuration had before it was added again
         self.capacity = None     # capacity-limited device: number of blocks it has room for
         self.dev_blocks = set()
         self.toc_entries = []
@@ -267,6 +268,8 @@ class HistoryGen:
         return h
 
     def add(self, h):
+        if h < len(self.im.cfgs) and self.im.cfgs[h].cf is not None:
+            self.old_ids.setdefault(h, []).append(self.im.cfgs[h].id)      # the id of the earlier add
         flat, wires, code = self.emit(['addcfg', h])
         c = self.im.cfgs[h]
         if code == 0 and self.im.cf.link is not None:
@@ -285,7 +288,13 @@ class HistoryGen:
         elif r < 0.14:
             pl = pl + [rng.randrange(256)]
         ts = [rng.randrange(256) for _ in range(3)] if rng.random() < 0.8 else rng.choice([[255] * 3, [0] * 3])
-        ident = c.id if rng.random() < 0.93 else rng.randrange(0, 256)
+        r = rng.random()
+        if r < 0.8 or (r < 0.93 and not self.old_ids.get(h)):
+            ident = c.id
+        elif r < 0.93:
+            ident = rng.choice(self.old_ids[h])       # a late packet of the block this configuration was before
+        else:
+            ident = rng.randrange(0, 256)
         self.stats['data'] += 1
         flat, wires, code = self.emit(['pkt', 2, [ident] + ts + pl])
         if code == 0 and flat[0] > 0:
@@ -944,6 +953,7 @@ def _check_block(case):
         rs = case.get('restart')
         if rs:
             # same session: the deleted configuration is started again (directly, or after add_config)
+            old_id = cfg.id
             if rs == 'addstart':
                 names0 = [(v.name, v.fetch_as) for v in cfg.variables]
                 w, code, obs = ev(['addcfg', 0])
@@ -953,6 +963,25 @@ def _check_block(case):
             if check_creation('_after_delete') is None:
                 return
             device_acks('_after_delete', case['samples'][:1])
+            if cfg.id != old_id:
+                # traffic that still carries the id of the FIRST, deleted block (late data, late or duplicated
+                # acknowledgements): it is not for this block -- nothing may be delivered, no flag may move
+                for kind in case.get('old_traffic', []):
+                    del got_samples[:]
+                    if kind == 'data':
+                        pl = []
+                        for (n, f, _m) in want_vars:
+                            pl += [0x5A] * DEV_SIZE[f]
+                        w, code, obs = ev(['pkt', 2, [old_id, 9, 9, 9] + pl])
+                    else:
+                        w, code, obs = ev(['pkt', 1, [kind, old_id, 0]])
+                    if got_samples or w or not cfg.added or not cfg.started or any(o[0] in (2, 3) for o in obs):
+                        raise _Fail('traffic_for_deleted_block_id_applied_to_readded_block',
+                                    {'delivered': 0, 'sent': [], 'added': True, 'started': True, 'callbacks': []},
+                                    {'delivered': len(got_samples), 'sent': [x[2] for x in w], 'added': cfg.added,
+                                     'started': cfg.started, 'callbacks': obs},
+                                    'packet %r with the id %d of the deleted first block; the re-added block has id %d'
+                                    % (kind, old_id, cfg.id))
             w, code, obs = ev(['stop', 0])
             if [x[2] for x in w] != [[4, cfg.id]]:
                 raise _Fail('stop_packet_after_delete', [[4, cfg.id]], w)
@@ -1124,7 +1153,9 @@ def _gen_block_case(rng, force=None):
         case['retry_toc'] = toc
         case['toc'] = [e for e in toc if e[0] != pick[1]]
     if case['delete']:
-        case['restart'] = rng.choice([None, 'start', 'start', 'addstart'])
+        case['restart'] = rng.choice([None, 'start', 'addstart', 'addstart'])
+        if case['restart'] == 'addstart':
+            case['old_traffic'] = [rng.choice(['data', 'data', 4, 2, 3]) for _ in range(rng.randrange(0, 4))]
     if case['reconnect']:
         r = rng.random()
         used = [v[1] for v in vs if v[0] != 'm']
@@ -1497,7 +1528,7 @@ def _shrink(case, cls, budget=400):
             continue
         cands = []
         for key, val in (('reconnect', False), ('delete', False), ('restart', None), ('toc2', None), ('refuse', None),
-                         ('v2', None), ('late', []), ('late2', []), ('early_add', None),
+                         ('v2', None), ('late', []), ('late2', []), ('early_add', None), ('old_traffic', []),
                          ('samples', []),
                          ('ms', 100)):
             if cur.get(key) not in (val, None) or (key == 'ms' and cur.get('ms') != 100):
@@ -1619,7 +1650,8 @@ PROVED = ('Over the model: add_config accepts iff names in TOC, 1<=int(ms/10)<=2
           'always creates (a refusal does not wedge it; the pending-guarded variant is refuted); every accepted add binds '
           'the configuration to the protocol generation of the current session (bind-once refuted); the reset reply of a '
           'new session forgets added/started/pending whatever old acknowledgements arrived late (forget-at-disconnect refuted); '
-          'lookups follow the installed table (memoised index refuted).')
+          'lookups follow the installed table (memoised index refuted); packets reach a block only under its current id '
+          '(stale id map refuted).')
 NOT_PROVED = ('Refuted on the unchanged code and kept as a known finding: raw-memory variables (add_memory) make create() '
               'raise TypeError (F05a; why it is not repaired: findings/C05.json why_not_fixed).  Not covered: protocol V1 has '
               'its theorem but no room test exists in the code (more than 14 variables exceed 30 bytes); append '
